@@ -587,4 +587,86 @@ example : (({ maxDeltas := 1 } : Better).run
      .add (.cons [97] (.int64 3#64) .nil), .resolve, .info]).samples = [[1#64], [2#64]] := by
   decide
 
+/-! ### the batch collector over whole histories (Add, Reset, SetMetadata, Resolve, Info in any order) -/
+
+def stepB (acc : Batch × List BDoc) : COp → Batch × List BDoc
+  | .add d => addLogB acc d
+  | .reset => (acc.1.reset, [])
+  | .setMeta d => (acc.1.setMetadata d, acc.2)
+  | _ => acc
+
+theorem better_setMetadata_same (x : Better) (d : BDoc) :
+    ((x.setMetadata d).Inv ↔ x.Inv) ∧ (x.setMetadata d).maxDeltas = x.maxDeltas ∧ (x.setMetadata d).samples = x.samples :=
+  ⟨Iff.rfl, rfl, rfl⟩
+
+theorem batch_setMetadata_inv (b : Batch) (d : BDoc) (hi : b.Inv) :
+    (b.setMetadata d).Inv ∧ (b.setMetadata d).samples = b.samples := by
+  unfold Batch.setMetadata
+  cases hc : b.chunks with
+  | nil => exact ⟨hi, rfl⟩
+  | cons x r =>
+    have he := hi.each; have hf := hi.full
+    rw [hc] at he hf
+    refine ⟨⟨hi.pos, by simp, ?_, ?_⟩, ?_⟩
+    · intro c hcm
+      simp only [List.mem_cons] at hcm
+      rcases hcm with rfl | hcm
+      · exact he x (by simp)
+      · exact he c (by simp [hcm])
+    · intro c hcm
+      cases r with
+      | nil => simp at hcm
+      | cons y r' =>
+        simp only [List.dropLast_cons_cons, List.mem_cons] at hcm
+        rcases hcm with rfl | hcm
+        · exact hf x (by simp)
+        · exact hf c (by simp [hcm])
+    · simp [Batch.samples, hc]; rfl
+
+/-- **C07 for the batch collector over whole histories**: the samples it holds are exactly the documents accepted since
+the last `Reset`, once each and in order, and every chunk but the last is full -/
+theorem batch_faithful_all_histories (n : Nat) (hn : 1 ≤ n) (ops : List COp) :
+    let r := ops.foldl stepB (Batch.new n, [])
+    r.1.Inv ∧ r.1.maxSamples = n ∧ r.1.samples = r.2.map fun x => (extractDoc x).map (·.1) := by
+  have step : ∀ (op : COp) (b : Batch) (acc : List BDoc), b.Inv → b.maxSamples = n →
+      b.samples = acc.map (fun x => (extractDoc x).map (·.1)) →
+      (stepB (b, acc) op).1.Inv ∧ (stepB (b, acc) op).1.maxSamples = n ∧
+        (stepB (b, acc) op).1.samples = (stepB (b, acc) op).2.map fun x => (extractDoc x).map (·.1) := by
+    intro op b acc hi hm h
+    cases op with
+    | add d =>
+      refine ⟨Batch.add_inv b d hi, ?_, ?_⟩
+      · show (b.add d).1.maxSamples = n
+        unfold Batch.add; repeat' split
+        all_goals first | exact hm | skip
+      · show (b.add d).1.samples = (if (b.add d).2 = .ok then acc ++ [d] else acc).map _
+        by_cases hok : (b.add d).2 = .ok
+        · rw [if_pos hok, Batch.add_ok_appends b d hi hok, h]; simp
+        · rw [if_neg hok, Batch.add_rejected_noop b d hi hok]; exact h
+    | reset => exact ⟨by rw [show (stepB (b, acc) .reset).1 = Batch.new b.maxSamples from rfl, hm]; exact Batch.new_inv n hn,
+        hm, by simp [stepB, Batch.reset, Batch.new, Batch.samples, Better.samples]⟩
+    | setMeta d =>
+      have := batch_setMetadata_inv b d hi
+      refine ⟨this.1, ?_, by rw [show (stepB (b, acc) (.setMeta d)).1 = b.setMetadata d from rfl, this.2]; exact h⟩
+      show (b.setMetadata d).maxSamples = n
+      unfold Batch.setMetadata; split <;> exact hm
+    | addBad => exact ⟨hi, hm, h⟩
+    | resolve => exact ⟨hi, hm, h⟩
+    | info => exact ⟨hi, hm, h⟩
+  have : ∀ (ops : List COp) (b : Batch) (acc : List BDoc), b.Inv → b.maxSamples = n →
+      b.samples = acc.map (fun x => (extractDoc x).map (·.1)) →
+      (ops.foldl stepB (b, acc)).1.Inv ∧ (ops.foldl stepB (b, acc)).1.maxSamples = n ∧
+        (ops.foldl stepB (b, acc)).1.samples = (ops.foldl stepB (b, acc)).2.map fun x => (extractDoc x).map (·.1) := by
+    intro ops
+    induction ops with
+    | nil => intro b acc hi hm h; exact ⟨hi, hm, h⟩
+    | cons op ops ih =>
+      intro b acc hi hm h
+      simp only [List.foldl_cons]
+      have e : stepB (b, acc) op = ((stepB (b, acc) op).1, (stepB (b, acc) op).2) := rfl
+      rw [e]
+      obtain ⟨a1, a2, a3⟩ := step op b acc hi hm h
+      exact ih _ _ a1 a2 a3
+  exact this ops (Batch.new n) [] (Batch.new_inv n hn) rfl (by simp [Batch.new, Batch.samples, Better.samples])
+
 end Ftdc.Props.C07
